@@ -1,105 +1,32 @@
 //! ad-hoc probes (not part of any check)
-use engeom::common::kd_tree::{KdTree, KdTreeSearch};
-use engeom::Point2;
-
+use engeom::geom3::SvdBasis3;
+use engeom::Point3;
+use parry3d_f64::na::{DMatrix, Matrix3};
 pub fn run() {
-    for (name, pts) in [
-        ("grid 15x15 distinct points", (0..225).map(|k| Point2::new((k % 15) as f64 * 0.5, (k / 15) as f64 * 0.5)).collect::<Vec<Point2>>()),
-        ("grid 40x40 distinct points", (0..1600).map(|k| Point2::new((k % 40) as f64 * 0.5, (k / 40) as f64 * 0.5)).collect::<Vec<Point2>>()),
-        ("two copies of a 10x10 grid", (0..200).map(|k| Point2::new(((k % 100) % 10) as f64, ((k % 100) / 10) as f64)).collect::<Vec<Point2>>()),
-        ("100 copies of one point + 100 distinct", (0..200).map(|k| if k < 100 { Point2::new(1.0, 1.0) } else { Point2::new(k as f64 * 0.37, (k * k) as f64 * 0.0013) }).collect::<Vec<Point2>>()),
-    ] {
-        let tree = KdTree::<2>::new(&pts);
-        let mut bad = 0; let mut total = 0;
-        for qi in 0..50 {
-            let q = Point2::new((qi % 7) as f64 * 0.93 + 0.11, (qi / 7) as f64 * 0.71 + 0.07);
-            let w = tree.within(&q, 1.3);
-            let brute = pts.iter().filter(|p| (*p - q).norm() < 1.3).count();
-            total += 1;
-            if w.len() != brute || w.iter().any(|(i, d)| ((pts[*i] - q).norm() - d).abs() > 1e-12) { bad += 1; }
-        }
-        println!("{name}: {bad} of {total} radius queries wrong");
+    let raw = [-11.797795129620413, 18.575699091130165, 4.938397641037181, -8.4775246628248, 19.939612124010598, 3.7293047064013614, -7.886333244313191, 20.18246393042179, 3.514019423383568, -8.734077553039857, 19.834224375004364, 3.8227297119909793, -9.367489143555284, 19.57402920954386, 4.053389679745885, -8.576886344122588, 19.898795963566368, 3.765487754750021, -9.469444413982286, 19.53214764492529, 4.090517196421097, -10.913143498827894, 18.93909957336899, 4.616247368310277, -11.232409773085434, 18.807950187566302, 4.732509763296684, -8.905364643052058, 19.763862428058136, 3.885104754144686, -7.108438395163933, 20.502010465433194, 3.2307451614215044, -11.937926283761225, 18.518135495225376, 4.989427094838737];
+    let pts: Vec<Point3> = raw.chunks(3).map(|c| Point3::new(c[0], c[1], c[2])).collect();
+    let b = SvdBasis3::from_points(&pts, None);
+    println!("engeom sv {:?}", b.sv);
+    let mut m = DMatrix::zeros(pts.len(), 3);
+    let mut g = Matrix3::zeros();
+    for (i, p) in pts.iter().enumerate() {
+        let v = p - b.center;
+        for j in 0..3 { m[(i, j)] = v[j]; }
+        g += v * v.transpose();
     }
-    if let Ok(txt) = std::fs::read_to_string("/tmp/knn_pts.txt") {
-        let mut it = txt.split_whitespace().map(|x| x.parse::<f64>().unwrap());
-        let n = it.next().unwrap() as usize;
-        let q = Point2::new(it.next().unwrap(), it.next().unwrap());
-        let r = it.next().unwrap();
-        let pts: Vec<Point2> = (0..n).map(|_| Point2::new(it.next().unwrap(), it.next().unwrap())).collect();
-        {
-            use kiddo::immutable::float::kdtree::ImmutableKdTree;
-            use kiddo::SquaredEuclidean;
-            let entries: Vec<[f64; 2]> = pts.iter().map(|p| [p.x, p.y]).collect();
-            macro_rules! try_b { ($b:expr) => {{
-                let t: ImmutableKdTree<f64, usize, 2, $b> = ImmutableKdTree::new_from_slice(&entries);
-                let res = t.within::<SquaredEuclidean>(&[q.x, q.y], r * r);
-                let bad = res.iter().filter(|e| (((pts[e.item] - q).norm_squared()) - e.distance).abs() > 1e-12).count();
-                println!("  immutable B={}: {} results, {} mis-indexed", $b, res.len(), bad);
-            }}}
-            try_b!(32); try_b!(64); try_b!(128); try_b!(256);
-            {
-                let t: ImmutableKdTree<f64, usize, 2, 32> = ImmutableKdTree::new_from_slice(&entries);
-                let res = t.within_unsorted::<SquaredEuclidean>(&[q.x, q.y], r * r);
-                let bad = res.iter().filter(|e| (((pts[e.item] - q).norm_squared()) - e.distance).abs() > 1e-12).count();
-                let mut idx: Vec<usize> = res.iter().map(|e| e.item).collect(); idx.sort(); idx.dedup();
-                println!("  immutable B=32 within_unsorted: {} results ({} distinct), {} mis-indexed", res.len(), idx.len(), bad);
-                let res = t.nearest_n::<SquaredEuclidean>(&[q.x, q.y], std::num::NonZero::new(40).unwrap());
-                let bad = res.iter().filter(|e| (((pts[e.item] - q).norm_squared()) - e.distance).abs() > 1e-12).count();
-                println!("  immutable B=32 nearest_n(40): {} results, {} mis-indexed", res.len(), bad);
-                let res = t.nearest_n_within::<SquaredEuclidean>(&[q.x, q.y], r * r, std::num::NonZero::new(1000).unwrap(), true);
-                let bad = res.iter().filter(|e| (((pts[e.item] - q).norm_squared()) - e.distance).abs() > 1e-12).count();
-                println!("  immutable B=32 nearest_n_within(sorted): {} results, {} mis-indexed", res.len(), bad);
-            }
-            let mut mt: kiddo::float::kdtree::KdTree<f64, usize, 2, 256, u32> = kiddo::float::kdtree::KdTree::new();
-            for (i, e) in entries.iter().enumerate() { mt.add(e, i); }
-            let res = mt.within::<SquaredEuclidean>(&[q.x, q.y], r * r);
-            let bad = res.iter().filter(|e| (((pts[e.item] - q).norm_squared()) - e.distance).abs() > 1e-12).count();
-            println!("  mutable B=256: {} results, {} mis-indexed", res.len(), bad);
-        }
-        let tree = KdTree::<2>::new(&pts);
-        let w = tree.within(&q, r);
-        let brute = (0..n).filter(|i| (pts[*i] - q).norm() < r).count();
-        let mut idx: Vec<usize> = w.iter().map(|e| e.0).collect(); idx.sort(); let before = idx.len(); idx.dedup();
-        println!("file case: n={n} r={r} within got {} (distinct {}), brute {}", before, idx.len(), brute);
-        for (i, d) in w.iter().take(400) { let t = (pts[*i] - q).norm(); if (t - d).abs() > 1e-12 || *d >= r { println!("  bad idx {i}: reported {d} true {t}"); } }
-    }
-    {
-        // 9x9 half-unit grid, 362 points (many exact duplicates), query on the grid
-        let mut s = 99u64;
-        let mut r = || { s = s.wrapping_mul(6364136223846793005).wrapping_add(1442695040888963407); ((s >> 33) % 9) as f64 };
-        let pts: Vec<Point2> = (0..362).map(|_| Point2::new((r() - 4.0) * 0.5, (r() - 4.0) * 0.5)).collect();
-        let tree = KdTree::<2>::new(&pts);
-        let q = Point2::new(0.25, 0.0);
-        let w = tree.within(&q, 0.5);
-        let brute = (0..362).filter(|i| (pts[*i] - q).norm() < 0.5).count();
-        let bad = w.iter().filter(|(i, d)| ((pts[*i] - q).norm() - d).abs() > 1e-12 || *d >= 0.5).count();
-        let mut idx: Vec<usize> = w.iter().map(|e| e.0).collect(); idx.sort(); let before = idx.len(); idx.dedup();
-        println!("grid dups: within got {} (distinct {}), brute {}, bad {}", before, idx.len(), brute, bad);
-        let (ni, nd) = tree.nearest_one(&q);
-        println!("grid dups: nearest {:?} {} true {}", pts[ni], nd, (pts[ni]-q).norm());
-    }
-    // 100 distinct points on a line, query within radius
-    let pts: Vec<Point2> = (0..100).map(|k| Point2::new(k as f64 * 0.1, 0.0)).collect();
-    let tree = KdTree::<2>::new(&pts);
-    let q = Point2::new(5.0, 0.0);
-    let w = tree.within(&q, 0.35);
-    println!("distinct line: within 0.35 of x=5.0 -> {:?}", w);
-    // duplicates
-    let pts2: Vec<Point2> = (0..100).map(|k| Point2::new((k % 5) as f64, 0.0)).collect();
-    let tree2 = KdTree::<2>::new(&pts2);
-    let w2 = tree2.within(&Point2::new(0.0, 0.0), 0.5);
-    println!("dups: within 0.5 of origin -> {} results; sample {:?}", w2.len(), &w2[..w2.len().min(5)]);
-    let n2 = tree2.nearest_one(&Point2::new(3.1, 0.0));
-    println!("dups: nearest to 3.1 -> {:?} (point {:?})", n2, pts2[n2.0]);
-    // random-ish distinct points
-    let mut s = 12345u64;
-    let mut r = || { s = s.wrapping_mul(6364136223846793005).wrapping_add(1442695040888963407); (s >> 11) as f64 / (1u64 << 53) as f64 };
-    let pts3: Vec<Point2> = (0..300).map(|_| Point2::new(r() * 10.0, r() * 10.0)).collect();
-    let tree3 = KdTree::<2>::new(&pts3);
-    let q3 = Point2::new(5.0, 5.0);
-    let mut w3: Vec<(usize, f64)> = tree3.within(&q3, 1.0);
-    w3.sort_by(|a, b| a.0.cmp(&b.0));
-    let brute: Vec<usize> = (0..300).filter(|i| (pts3[*i] - q3).norm() < 1.0).collect();
-    println!("random: within got {} brute {}", w3.len(), brute.len());
-    for (i, d) in &w3 { let t = (pts3[*i] - q3).norm(); if (t - d).abs() > 1e-12 { println!("  mismatch idx {i}: reported {d} true {t}"); } }
+    let e = g.symmetric_eigen();
+    println!("eigen of gram: {:?} sqrt {:?}", e.eigenvalues, e.eigenvalues.map(|x: f64| x.max(0.0).sqrt()));
+    println!("frobenius^2 {}", m.norm_squared());
+    let s = m.clone().svd(true, true);
+    println!("svd(true,true) {:?}", s.singular_values);
+    let s = m.clone().svd(false, false);
+    println!("svd(false,false) {:?}", s.singular_values);
+    let s = m.clone().svd_unordered(false, true);
+    println!("svd_unordered {:?}", s.singular_values);
+    let s = m.transpose().svd(true, false);
+    println!("svd of transpose {:?}", s.singular_values);
+    let s = m.clone().svd(true, true);
+    let rec = s.recompose().unwrap();
+    println!("recompose err {:e}", (rec - m.clone()).norm());
+    println!("singular_values() {:?}", m.singular_values());
 }
